@@ -1202,3 +1202,85 @@ def implies(f, atoms, required_true):
         if f(v) and not all(v.get(a, False) for a in required_true):
             return False, v
     return True, None
+
+
+def decision_function(fn_body, result_wrappers=("Ok",)):
+    """A11: a small pure function `stmts..; tail` where stmts are `if C { return Ok(B) } [else if ..]` and boolean `let`s and
+    the tail is `Ok(E)` / `E`  ->  (evaluate(valuation) -> bool, atoms).  Raises AnchorError outside the fragment."""
+    lets = {}
+    atoms = set()
+
+    def unwrap(e):
+        e = strip(e)
+        while e.get("k") == "call" and e["f"].get("k") == "path" and e["f"]["p"] in result_wrappers and len(e["args"]) == 1:
+            e = strip(e["args"][0])
+        return e
+
+    def formula(e):
+        e = unwrap(e)
+        k = e.get("k")
+        if k == "binary" and e["op"] in ("&&", "||"):
+            l, r = formula(e["l"]), formula(e["r"])
+            return (lambda v: l(v) and r(v)) if e["op"] == "&&" else (lambda v: l(v) or r(v))
+        if k == "unary" and e["op"] == "!":
+            i = formula(e["e"])
+            return lambda v: not i(v)
+        if k == "lit" and e.get("t") == "bool":
+            b = bool(e["v"])
+            return lambda v: b
+        if k == "path" and e["p"] in lets:
+            return lets[e["p"]]
+        if k == "try":
+            return formula(e["e"])
+        if k == "if":
+            c = formula(e["c"])
+            t = formula(tail_expr(e["then"]))
+            el = formula(tail_expr(e["else"]) if e["else"].get("k") == "block" else e["else"]) if e.get("else") else (lambda v: False)
+            return lambda v: t(v) if c(v) else el(v)
+        text = src(e).replace(" ", "")
+        if k == "binary" and e["op"] == "!=":
+            text = "(" + src(e["l"]).replace(" ", "") + "==" + src(e["r"]).replace(" ", "") + ")"
+            atoms.add(text)
+            return lambda v, t=text: not v[t]
+        atoms.add(text)
+        return lambda v, t=text: v[t]
+
+    def returns_of(block):
+        """the single `return X` of a branch block -> formula of X"""
+        stmts = block["stmts"] if block.get("k") == "block" else None
+        if not stmts or len(stmts) != 1:
+            raise AnchorError("early-return branch with more than one statement")
+        s = stmts[0]
+        e = strip(s["e"]) if s.get("k") == "expr" else None
+        if e is None or e.get("k") != "return" or e.get("e") is None:
+            raise AnchorError("branch that is not a single `return`")
+        return formula(e["e"])
+
+    chain = []  # (cond formula, result formula)
+    stmts = fn_body["stmts"]
+    for s in stmts[:-1]:
+        if s.get("k") == "local" and s.get("init") is not None and s["pat"].get("k") in ("pident", "ptype"):
+            nm = [p["name"] for p in walk(s["pat"]) if p.get("k") == "pident"]
+            if len(nm) != 1:
+                raise AnchorError("destructuring let in a decision function")
+            lets[nm[0]] = formula(s["init"])
+        elif s.get("k") == "expr" and strip(s["e"]).get("k") == "if":
+            cur = strip(s["e"])
+            while cur is not None and cur.get("k") == "if":
+                chain.append((formula(cur["c"]), returns_of(cur["then"])))
+                cur = strip(cur["else"]) if cur.get("else") else None
+            if cur is not None:
+                raise AnchorError("early-return chain with a final else")
+        else:
+            raise AnchorError(f"statement outside the decision fragment: `{src(s)[:60]}`")
+    last = stmts[-1]
+    if last.get("k") != "expr" or last.get("semi"):
+        raise AnchorError("no tail expression")
+    tail = formula(last["e"])
+
+    def evaluate(v):
+        for c, r in chain:
+            if c(v):
+                return r(v)
+        return tail(v)
+    return evaluate, sorted(atoms)
